@@ -55,6 +55,11 @@ def dtableLine (norm : Array Int) (log : Nat) : String :=
   let cells := FSE.buildCells norm log
   "ok cells=" ++ commaSep (cells.toList.map fun c => s!"{c.sym}:{c.nbBits}:{c.newState}")
 
+/-- ZSTD_buildFSETable: the sequence decoding table of one alphabet -/
+def seqtableLine (norm : Array Int) (log : Nat) (base bits : List Nat) : String :=
+  let cells := FSE.buildSeqTable norm log base bits
+  "ok cells=" ++ commaSep (cells.toList.map fun c => s!"{c.nextState}:{c.nbAddBits}:{c.nbBits}:{c.baseValue}")
+
 def encLine (norm : Array Int) (log : Nat) (syms : List Nat) : String :=
   if syms.isEmpty || syms.any (fun s => s ≥ norm.size || norm[s]! == 0) then "err usage" else
   "ok " ++ streamHex (FSE.encodeAll (FSE.buildCTable norm log) syms)
@@ -68,6 +73,18 @@ def step (_ : Unit) (ws : List String) : Unit × String :=
   | ["dtable", l, cs] =>
       match l.toNat?, parseInts cs with
       | some log, some norm => ((), dtableLine norm log)
+      | _, _ => ((), "err usage")
+  | ["seqtableLL", l, cs] =>
+      match l.toNat?, parseInts cs with
+      | some log, some norm => ((), seqtableLine norm log ZstdVerif.Gen.LL_base ZstdVerif.Gen.LL_bits)
+      | _, _ => ((), "err usage")
+  | ["seqtableOF", l, cs] =>
+      match l.toNat?, parseInts cs with
+      | some log, some norm => ((), seqtableLine norm log ZstdVerif.Gen.OF_base ZstdVerif.Gen.OF_bits)
+      | _, _ => ((), "err usage")
+  | ["seqtableML", l, cs] =>
+      match l.toNat?, parseInts cs with
+      | some log, some norm => ((), seqtableLine norm log ZstdVerif.Gen.ML_base ZstdVerif.Gen.ML_bits)
       | _, _ => ((), "err usage")
   | ["enc", l, cs, ss] =>
       match l.toNat?, parseInts cs, parseNats ss with
